@@ -245,11 +245,18 @@ impl Chain {
             })
             .collect();
           let scripts: Vec<ScriptBuf> = spec.outs.iter().map(|o| o.script()).collect();
-          let payable = scripts.iter().filter(|s| !s.is_op_return()).count() as u64;
+          // C37 chains: OP_RETURN outputs other than the runestone carry value too, so that
+          // inscriptions can be created on / moved onto an OP_RETURN output
+          let valued_opret = self.opts.events;
+          let unpaid = move |s: &ScriptBuf| {
+            let b = s.as_bytes();
+            s.is_op_return() && (!valued_opret || (b.len() >= 2 && b[1] == 0x5d))
+          };
+          let payable = scripts.iter().filter(|s| !unpaid(s)).count() as u64;
           let each = if payable > 0 { total / payable } else { 0 };
           let output = scripts
             .into_iter()
-            .map(|s| TxOut { value: Amount::from_sat(if s.is_op_return() { 0 } else { each }), script_pubkey: s })
+            .map(|s| TxOut { value: Amount::from_sat(if unpaid(&s) { 0 } else { each }), script_pubkey: s })
             .collect();
           Transaction { version: Version(2), lock_time: LockTime::ZERO, input, output }
         };
